@@ -39,6 +39,10 @@ func init() {
 		What:    "for C13's 'relative vs absolute input path': the designated output/log paths are the SAME function of the input path for every spelling of it - the input with .gen inserted before the extension of its last element - so a directory part containing dots (./x.go, ../d/x.go, /a.b/x.go) designates the output next to the input exactly as a dot-free spelling does (see C18ParseArgs)",
 		Bounds:  "as C18ParseArgs",
 		Assumes: []string{aEnv}})
+	reg(&HarnessSpec{Prop: "C15", Name: "C18ParseArgs",
+		What:    "for C15's 'the log file next to it': the log path handed to runner.Run is the designated OUTPUT path (after -out) with its extension replaced by .log, for every input path, -out value and flag valuation - never a file next to the input or anywhere else (see C18ParseArgs)",
+		Bounds:  "as C18ParseArgs",
+		Assumes: []string{aEnv}})
 	reg(&HarnessSpec{Prop: "C18", Name: "C18NoInput", Replay: "none",
 		What: "no positional argument and empty GOFILE: usage and exit status 1", Bounds: "-out symbolic <= 10 bytes", Assumes: []string{aEnv}})
 	reg(&HarnessSpec{Prop: "C18", Name: "C18Generate", Replay: "e2e-cli",
@@ -113,6 +117,13 @@ func init() {
 		What:   "whole generated text on skeleton whole: an interface-level ':style arg' shapes every function of ITS interface and no function of another converter interface; a method-level :skip reaches its own function only (see C11WholeFile)",
 		Bounds: "skeleton whole", Assumes: []string{aT, aSlots}})
 
+	for _, pr := range []string{"C14", "C06"} {
+		reg(&HarnessSpec{Prop: pr, Name: "C14NotationBytes", Replay: "native",
+			What:    "real parseNotationInComments (reNotation/reLiteral run by a leftmost-first backtracking matcher over the byte vector, strings.Fields, NewIdentMatcher, NewNameMatcher, NewFieldConverter, NewLiteralSetter, isValidIdentifier) on ONE method-level notation line ':<notation><sep><args>' for the type-free notations literal/map/conv/style/match/recv/reverse/case:off and an unknown one, with the ARGUMENT TEXT an arbitrary byte string: no Go run-time panic; too few arguments are rejected with a diagnostic; otherwise exactly the white-space separated arguments are recorded (destination / source / function / literal text = rest of the line); :style/:match accept exactly the documented values; :recv accepts identifiers only; unknown notations are ignored",
+			Bounds:  "argument text: ASCII bytes 1..127 without CR/LF, length 0..4 (5 thorough), every length case-split, every byte symbolic; separators ' ' and TAB",
+			Assumes: []string{"non-ASCII argument bytes are outside the bound (the regexp matcher and unicode.* stubs decide ASCII code points only)", "notations that need type information (:preprocess/:postprocess, :conv resolution) and :skip (matcher compilation: C19) are not exercised here"}})
+	}
+
 	// ---------------------------------------------------------------- C14 / C08 / C10 / C07 / C01 (mode T)
 	whatBad := "real front half (NewParser, Parse, parseNotationInComments, lookupConverterFunc, lookupManipulatorFunc, resolveConverters, CreateFunctions with the whole assignment builder, FuncToString) on skeleton bad for every (mal)formed notation of a 96-entry menu on a method (missing/invalid arguments, unknown names, wrongly shaped converters and hooks: 0/1 parameters, wrong result shapes, wrong operand types, unexported or unknown imported functions, $n out of range, bad paths, bad regexps, :reverse without :style arg, unknown notations) and misplaced notations on the interface, combined with toggles on both methods: no Go run-time panic on any path; either success with exactly one function per method whose text parses and TYPE-CHECKS inside the skeleton package (native go/types judge), or failure with a message on stderr starting with file:line:column"
 	for _, pr := range []string{"C14", "C10", "C07", "C01"} {
@@ -139,8 +150,11 @@ func init() {
 	// ---------------------------------------------------------------- C05 / C06 shapes, C04 names (mode T)
 	whatShapes := "real Parse + CreateFunction on skeleton shapes (nested 2 deep, embedded, identical and differing anonymous structs, imported struct with unexported members, pointer/slice of differing structs, empty struct, getters, 2 additional arguments) with two notation slots (77 x 13 menu entries: :skip exact/nested/prefix/case/regexp, :literal, :map incl. getter chains, embedded members, $n, unresolvable and invisible sources, :conv incl. error-returning, imported and to-be-generated converters, conflicting pairs, :case:off/:getter/:typecast): every reachable destination leaf (recomputed from go/types, stopping at members the package cannot see) is covered by exactly one line on itself or an enclosing path; invisible members are never mentioned; every no-match is warned with a position; a path (or ancestor) matching a :skip pattern under the method's case rule is never assigned; the first :conv / :map / $n-map / :literal naming a path (case-sensitively) supplies its value from exactly that converter / source expression / literal text or the path is reported no match; the emitted function type-checks"
 	for _, pr := range []string{"C05", "C06", "C01"} {
-		reg(&HarnessSpec{Prop: pr, Name: "C06Shapes", What: whatShapes, Bounds: "skeleton shapes; 77 x 13 notation pairs", Assumes: []string{aT, aSlots, "$n denotes the n-th method argument ($1 the source, $2 the first additional argument), as in the README example and the pinned fixture usecase/maps"}})
+		reg(&HarnessSpec{Prop: pr, Name: "C06Shapes", What: whatShapes, Bounds: "skeleton shapes; 86 x 13 notation pairs", Assumes: []string{aT, aSlots, "$n denotes the n-th method argument ($1 the source, $2 the first additional argument), as in the README example and the pinned fixture usecase/maps"}})
 	}
+	reg(&HarnessSpec{Prop: "C19", Name: "C06Shapes",
+		What:    "for C19's ':map/:conv paths always compare case-sensitively': at the place where the builder USES the matchers (matchStructFieldAndStruct, notationTargetsMemberOf) a :literal / :conv / :map whose destination differs from a field's path only in letter case addresses nothing, also under :case:off - a value only the notation can supply appears on exactly the path the notation names (see C06Shapes; menu entries ':literal name', ':conv Up Extra name', ':literal in.b', ':map Extra name' x ':case:off')",
+		Bounds:  "skeleton shapes; 86 x 13 notation pairs", Assumes: []string{aT, aSlots}})
 	for _, pr := range []string{"C05", "C01"} {
 		reg(&HarnessSpec{Prop: pr, Name: "C05SameName", What: "the same coverage/visibility/type-check obligations where the setup package and the imported package share their package NAME (visibility must be decided by import path)", Bounds: "skeleton samename, 2 methods", Assumes: []string{aT}})
 	}
